@@ -1,11 +1,11 @@
 package e1front
 
 import (
-	"io"
 	"bytes"
 	"context"
 	"errors"
 	"fmt"
+	"io"
 	"net"
 	"os"
 	"runtime"
